@@ -2,6 +2,7 @@
    evaluate it at the given isotopomer states -/
 import Driver.Wire
 import MxlVerif.Model.C05
+import MxlVerif.Model.C05Py
 import MxlVerif.Model.C16
 open Lean Mxl Mxl.Wire Mxl.C05
 namespace Driver.H_c05
@@ -85,7 +86,8 @@ def jCoef (j : Json) : Except String Coef :=
 def handle (j : Json) : Except String Json := do
   let lv ← jList (jPair jStr jNat) (← field j "lv")
   let maps ← jList (jPair jStr (jList jInt)) (← field j "maps")
-  let init ← jList (jPair jStr (jList jNat)) (fieldD j "init" (.arr #[]))
+  let initI ← jList (jPair jStr (jList jInt)) (fieldD j "init" (.arr #[]))
+  let init := initI.map fun kp => (kp.1, natPositions kp.2)
   let base ← jBase (← field j "base")
   -- raw coefficients of the reactions whose stoichiometry is not all Python ints
   let raw ← jList (jPair jStr (jList (jPair jStr jCoef))) (fieldD j "raw" (.arr #[]))
@@ -111,11 +113,11 @@ def handle (j : Json) : Except String Json := do
   let qres ← queries.mapM fun q => match q with
     | [.str "of", .str x] => pure (namesJ (getIsotopomerOf lv x))
     | [.str "at", .str x, ps] => do
-      let ps ← jList jNat ps
-      pure (namesJ (isotopomersAtPosition lv x ps))
+      let ps ← jList jInt ps
+      pure (namesJ (isotopomersAtPositionI lv x ps))
     | [.str "n", .str x, k] => do
-      let k ← jNat k
-      pure (namesJ (isotopomersWithNLabels lv x k))
+      let k ← jInt k
+      pure (namesJ (isotopomersWithNLabelsI lv x k))
     | _ => .error "bad query"
   let isosJ := Json.arr ((getIsotopomers lv).map fun kv =>
     Json.arr #[.str kv.1, strsJ (kv.2.map render)]).toArray
@@ -133,15 +135,35 @@ def handle (j : Json) : Except String Json := do
   -- net coefficient of every base variable in every base reaction (`netOf`, the steady-state premise)
   let net := Json.arr (base.rxns.flatMap fun r => base.vars.map fun kv =>
     Json.arr #[.str r.name, .str kv.1, intJ (netOf base r.name kv.1)]).toArray
-  let common := [("distinct", distinct), ("dims", dims), ("net", net), ("queries", Json.arr qres.toArray), ("isos", isosJ),
+  -- reactions without a label map: what is handed to add_reaction (raw coefficients passed through),
+  -- and the labelled compounds they change (no variables of the labelled model: KeyError on evaluation)
+  let coefJ : Coef → Json := fun c => match c with
+    | .int v => Json.mkObj [("int", intJ v)]
+    | .float q => Json.mkObj [("float", ratJ q)]
+    | .derived => .str "derived"
+  let unmapped := base.rxns.filter fun r => (maps.lookup r.name).isNone
+  let stOf : BRxn → List (Mxl.Name × Coef) := fun r =>
+    (raw.lookup r.name).getD (r.stoich.map fun kv => (kv.1, Coef.int kv.2))
+  let uraw := Json.arr (unmapped.map fun r =>
+    let u := unmappedRaw lv r.name r.args (stOf r)
+    Json.arr #[.str u.name, strsJ (u.args.map render),
+      .arr (u.stoich.map fun kc => Json.arr #[.str kc.1, coefJ kc.2]).toArray]).toArray
+  let danglingL := unmapped.flatMap fun r => danglingOf lv (stOf r)
+  let dangling := strsJ danglingL
+  -- the label string `build_model` computes for every `initial_labels` entry of a listed compound
+  let initSuf := Json.arr (initI.filterMap fun kp =>
+    (lv.lookup kp.1).map fun n => Json.arr #[.str kp.1, .str (bits (initSuffixI n kp.2))]).toArray
+  let common := [("distinct", distinct), ("dims", dims), ("net", net), ("initsuf", initSuf), ("uraw", uraw), ("dangling", dangling), ("queries", Json.arr qres.toArray), ("isos", isosJ),
     ("nat", Json.str nat)]
-  match buildModelP base lv maps raw init with
+  match buildModelPy base lv maps raw initI with
   | .error e => pure (Json.mkObj ([("err", errJ e)] ++ common))
   | .ok m =>
     let sts ← states.mapM (stateOf m)
-    let rhs := sts.map fun st => Json.arr ((m.rhs st).map fun kv =>
-      Json.arr #[.str (render kv.1), ratJ kv.2]).toArray
-    let sums := sts.map fun st => assocJ ratJ (m.summedRhs lv (base.vars.map (·.1)) st)
+    let keyErr := Json.mkObj [("err", Json.arr #[.str "KeyError"])]
+    let rhs := sts.map fun st => if danglingL.isEmpty then Json.arr ((m.rhs st).map fun kv =>
+      Json.arr #[.str (render kv.1), ratJ kv.2]).toArray else keyErr
+    let sums := sts.map fun st => if danglingL.isEmpty then
+      assocJ ratJ (m.summedRhs lv (base.vars.map (·.1)) st) else keyErr
     -- the right-hand side of the theorems: the base model's derivative at the isotopomer totals
     let baseRhs := sts.map fun st =>
       assocJ ratJ (base.vars.map fun kv => (kv.1, baseRhsOf base.rxns (totalsEnv lv (m.env st)) kv.1))
